@@ -135,7 +135,7 @@ func mutationSweep(prog *Program, rep *Report, kinds map[string]bool, n int) {
 	res := sweepResult{}
 	var mu sync.Mutex
 	var wg sync.WaitGroup
-	sem := make(chan struct{}, 4)
+	sem := make(chan struct{}, 2)
 	for _, c := range cands[:n] {
 		wg.Add(1)
 		sem <- struct{}{}
